@@ -43,13 +43,13 @@ CLAIM = {
              "linear key (unbounded), single-tier merge = sequential ranking under that hypothesis; a machine-checked witness shows the "
              "_qscore-vs-raw-score discrepancy.  Tied to the code by exact differential execution of the same definitions against the real "
              "functions under a prescribed-completion-order executor, and by the seq-vs-par differential on the real T1/T2."),
-    "note": ("The per-graph T1 function, cosine scores and the index's tier search are parameters/oracles (measured on the real code). "
-             "T2 end-to-end equality is decided by the real seq-vs-par differential (Lean covers shards, _qscore, merge, top-k); the cluster "
-             "tier (per-shard centroids) is covered by correspondence only and is an open finding, as is the _qscore tie at the k cut. "
-             "Real thread pools under switch-interval jitter are supporting stress only. The T2 call-site defects (merge_fn/order_key None, "
-             "recent_days None, hit owner dropped) are repaired by proposed_fixes/C09_t2_fanout_call.diff; models follow the repaired code. "
-             "seqWalk (the sequential tier loop of t2_semantic) and mergeTierHits are replayed by the driver on the hits the real index "
-             "returned per tier / per shard and must reproduce the real id set and tier_sequence."),
+    "note": ("The per-graph T1 function, cosine scores and the index's tier filters are parameters/oracles (measured on the real code). "
+             "T2: Lean covers shards, _qscore, the merge with its key (-_qscore, -raw, id), _rank_by_cosine (sort, one entry per id, cut) and "
+             "the full par = seq walk theorem for any tiers / shards / k with repeated ids (C09_T2_par_eq_seq, hypothesis: the quantiser is "
+             "monotone); the cluster tier's choice of clusters over the whole index is covered by the real seq-vs-par differential only. "
+             "seqWalk / mergeTierHits / rankU are replayed by the driver on what the real index returned. Real thread pools under "
+             "switch-interval jitter are supporting stress only. Former findings (cluster tier per shard, _qscore tie at the k cut, "
+             "re-added ids cut before de-duplication) are repaired by proposed_fixes/C09_t2_*.diff; their inputs are corpus regressions."),
     "technique": "Lean 4 permutation/induction proofs over an executor-with-oracle model + exact correspondence + real seq-vs-par differential",
     "design_ref": "DESIGN.md §4 C09",
 }
@@ -57,7 +57,7 @@ DRIVER_MODULES = ["HPar"]
 MODELLED = {
     "clematis/engine/util/parallel.py": ["run_parallel"],
     "clematis/engine/stages/t1.py": ["t1_propagate", "_t1_parallel_enabled"],
-    "clematis/memory/index.py": ["InMemoryIndex._iter_shards_for_t2"],
+    "clematis/memory/index.py": ["InMemoryIndex._iter_shards_for_t2", "InMemoryIndex._rank_by_cosine"],
     "clematis/engine/stages/t2/shard.py": ["_qscore", "merge_tier_hits_across_shards_dict"],
     "clematis/engine/stages/t2/parallel.py": ["collect_shard_hits", "t2_parallel_enabled"],
 }
@@ -775,6 +775,56 @@ class QscoreComp(Component):
         return sorted(t) or ["default"]
 
 
+class RankComp(Component):
+    """real `InMemoryIndex._rank_by_cosine` (threshold, sort by (-score, id), one entry per id, cut to k) vs
+    `Clem.ParT2.rankU`; the cosine of every candidate is measured on the real `_cosine` (oracle)."""
+    name = "par.rank"
+    budget = {"quick": 600, "thorough": 8000, "search": 16000}
+
+    def gen(self, rng, i):
+        n = rng.choice([0, 1, 2, 3, 5, 8, 12])
+        vals = [0.0, 1.0, 1.0, -1.0, 0.5, 2.0, 1e-10, 1.4e-10]
+        eps = []
+        for j in range(n):
+            eid = rng.choice("abE") + str(rng.randrange(0, max(1, n // 2)) if rng.random() < 0.6 else j)
+            eps.append([eid, [rng.choice(vals) for _ in range(3)], rng.random() < 0.05])
+        return {"eps": eps, "k": rng.choice([0, 1, 2, 3, n, n + 2]), "thr": rng.choice([-2.0, 0.0, 0.3, 0.9]),
+                "q": [rng.choice([1.0, 0.5, -1.0]), rng.choice([0.0, 1.0]), 0.0]}
+
+    def _cands(self, case):
+        import numpy as np
+        from clematis.memory.index import _cosine
+        q = np.asarray(case["q"], dtype=np.float32)
+        return [[e[0], f2b(_cosine(q, np.asarray(e[1], dtype=np.float32)))] for e in case["eps"] if not e[2]]
+
+    def impl(self, case):
+        import numpy as np
+        from clematis.memory.index import InMemoryIndex
+        idx = InMemoryIndex()
+        eps = [{"id": e[0], "vec_full": None if e[2] else np.asarray(e[1], dtype=np.float32)} for e in case["eps"]]
+        res = idx._rank_by_cosine(eps, np.asarray(case["q"], dtype=np.float32), case["k"], case["thr"])
+        return [[str(e["id"]), f2b(float(s))] for e, s in res]
+
+    def request(self, case):
+        return {"c": "par.rank", "hits": self._cands(case), "k": case["k"], "thr": f2b(case["thr"])}
+
+    def monitors(self, case, impl_out):
+        ids = [h[0] for h in impl_out]
+        return [("rank_ids_unique", len(set(ids)) == len(ids), f"ids {ids}"),
+                ("rank_at_most_k", len(ids) <= max(0, case["k"]), f"{len(ids)} > k={case['k']}")]
+
+    def tags(self, case, impl_out):
+        t = set()
+        ids = [e[0] for e in case["eps"] if not e[2]]
+        if len(set(ids)) < len(ids):
+            t.add("duplicate_ids")
+        if len(impl_out) == case["k"] and len(set(ids)) > case["k"]:
+            t.add("k_cut")
+        if impl_out:
+            t.add("hits")
+        return sorted(t) or ["default"]
+
+
 TIERS = ["exact_semantic", "cluster_semantic", "archive"]
 
 
@@ -1116,39 +1166,10 @@ class T2E2EComp(Component):
             out.append(("par_merge", {"c": "par.merge", "k": cp["k"], "tiers": cp["tiers"], "shards": ordered}, io["par"]))
         return out
 
-    # deterministic classifier for a seq/par difference
+    # classifier for a seq/par difference.  The three former classes (cluster tier chosen per shard, _qscore tie at
+    # the k cut, re-added ids cut before de-duplication) are repaired (proposed_fixes/C09_*.diff); their old failing
+    # inputs are corpus regression cases and any divergence is a violation again.
     def classify(self, case) -> str:
-        tiers = list(case["t2"]["tiers"])
-        if "cluster_semantic" in tiers:
-            nt = [t for t in tiers if t != "cluster_semantic"]
-            a = self._wrap(lambda: self._run(case, False, tiers=nt))
-            b = self._wrap(lambda: self._run(case, True, tiers=nt))
-            if _canon(a) == _canon(b):
-                return K_CLUSTER
-        # re-added episode ids: the sequential walk cuts each tier to k_retrieval *before* de-duplicating by id, so
-        # copies of one id use up slots; the fan-out cuts per shard and surfaces more distinct ids.  Known class only
-        # if the real parallel result is exactly what complete per-shard tier results give through the real merge.
-        ids = [e["id"] for e in case["eps"]]
-        if len(set(ids)) < len(ids):
-            par = self._wrap(lambda: self._run(case, True))
-            ref = self._wrap(lambda: self.reference_merge(case))
-            if isinstance(par, dict) and "retrieved" in par and "items" in ref \
-                    and sorted([r[0], r[1], r[2]] for r in par["retrieved"]) == ref["items"] \
-                    and list(par["metrics"].get("tier_sequence", [])) == (ref["used"] or list(case["t2"]["tiers"])):
-                return K_DUPID
-            return K_T2DIFF
-        # two candidates with different raw cosine but the same _qscore
-        import numpy as np
-        from clematis.memory.index import _cosine
-        from clematis.engine.stages.t2.shard import _qscore
-        q = np.asarray(case["q"], dtype=np.float32)
-        sc = sorted({_cosine(q, np.asarray(e["vec"], dtype=np.float32)) for e in case["eps"]})
-        if any(a != b and _qscore(a) == _qscore(b) for a, b in zip(sc, sc[1:])):
-            big = dict(case, t2=dict(case["t2"], k_retrieval=len(case["eps"]) + 5))
-            a = self._wrap(lambda: self._run(big, False))
-            b = self._wrap(lambda: self._run(big, True))
-            if _canon(a) == _canon(b) or "cluster_semantic" in tiers:
-                return K_QTIE
         return K_T2DIFF
 
     @staticmethod
@@ -1220,7 +1241,6 @@ def _run_t2e2e(ctx: Ctx, comp: T2E2EComp) -> None:
     seen_keys = set()
     mreqs = []
     nraised = 0
-    deferred: list = []
     for c in cases:
         io = comp.impl(c)
         if isinstance(io["seq"], dict) and "__raised__" in io["seq"]:
@@ -1234,20 +1254,13 @@ def _run_t2e2e(ctx: Ctx, comp: T2E2EComp) -> None:
         differs = any(t in io and _canon(io["seq"]) != _canon(io[t]) for t in ("par", "par_real"))
         if differs:
             key = comp.classify(c)
-            dup = comp.has_dup_ids(c)
-            if key == K_T2DIFF and dup and not comp.seq_is_reference(c, io):
-                # the memory is also in the recorded duplicate-id class (sequential != complete fan-out): still a
-                # violation, but prefer an input on which the intended fan-out equals the sequential path as the replay
-                deferred.append((c, io))
-                continue
             if key not in seen_keys:
                 seen_keys.add(key)
                 from harness.core import shrink_case
 
-                def still(cc, key=key, dup=dup):
+                def still(cc, key=key):
                     o = comp.impl(cc)
-                    return _canon(o["seq"]) != _canon(o["par"]) and comp.classify(cc) == key \
-                        and (not (dup and key == K_T2DIFF) or (comp.has_dup_ids(cc) and comp.seq_is_reference(cc, o)))
+                    return _canon(o["seq"]) != _canon(o["par"]) and comp.classify(cc) == key
                 try:
                     if _canon(io["seq"]) != _canon(io["par"]):
                         c2 = shrink_case(comp, c, still, limit=30)
@@ -1255,8 +1268,6 @@ def _run_t2e2e(ctx: Ctx, comp: T2E2EComp) -> None:
                 except Exception:
                     pass
             comp.fail_all(ctx, c, io)
-    for c, io in deferred:
-        comp.fail_all(ctx, c, io)
     # the Lean sequential walk / merge on the real per-tier / per-shard hits reproduce ids and tier sequence
     ctx.extra["t2_model_replays"] = {"seq_walk": sum(1 for m in mreqs if m[1] == "seq_walk"),
                                      "par_merge": sum(1 for m in mreqs if m[1] == "par_merge")}
@@ -1272,8 +1283,8 @@ def _run_t2e2e(ctx: Ctx, comp: T2E2EComp) -> None:
 
 # --------------------------------------------------------------------------------------------
 
-PAR, T1F, SHARDS, QS, MERGE, T2E = ParComp(), T1FanComp(), ShardsComp(), QscoreComp(), MergeComp(), T2E2EComp()
-COMPONENTS = [PAR, T1F, SHARDS, QS, MERGE, T2E]
+PAR, T1F, SHARDS, QS, MERGE, T2E, RANK = ParComp(), T1FanComp(), ShardsComp(), QscoreComp(), MergeComp(), T2E2EComp(), RankComp()
+COMPONENTS = [PAR, T1F, SHARDS, QS, MERGE, T2E, RANK]
 
 
 def run(ctx: Ctx) -> None:
@@ -1284,6 +1295,7 @@ def run(ctx: Ctx) -> None:
     run_component(ctx, SHARDS)
     run_component(ctx, QS)
     run_component(ctx, MERGE)
+    run_component(ctx, RANK)
     _run_t2e2e(ctx, T2E)
 
 
@@ -1304,7 +1316,7 @@ def replay(ctx: Ctx, rec: dict) -> int:
     rec = _decanon(rec)
     recs = [rec] if "case" in rec else rec.get("broken_correspondence", [])
     rc = 0
-    generic = {c.name: c for c in (PAR, SHARDS, QS, MERGE)}
+    generic = {c.name: c for c in (PAR, SHARDS, QS, MERGE, RANK)}
     for r in recs:
         cname = r.get("component")
         case = r["case"]
